@@ -33,28 +33,40 @@ class FragmentSpreadsMustNotFormCycles(June2018ReleaseValidationRule):
     RULE_LINK = "https://graphql.github.io/graphql-spec/June2018/#sec-Fragment-spreads-must-not-form-cycles"
     RULE_NUMBER = "5.5.2.2"
 
-    def _validate_fragment(self, fragments, fragment, spreaded):
-        for selected in fragment.selection_set.selections:
-            if isinstance(selected, FragmentSpreadNode):
-                if selected.name.value not in spreaded:
-                    spreaded.append(selected.name.value)
-
-                    fragment = find_nodes_by_name(
-                        fragments, selected.name.value
-                    )
-                    if not fragment:
-                        continue  # Handled by another validator
-                    fragment = fragment[0]
-
-                    self._validate_fragment(fragments, fragment, spreaded)
+    def _collect_spreads(self, selection_set, spreads):
+        if selection_set is not None:
+            for selected in selection_set.selections:
+                if isinstance(selected, FragmentSpreadNode):
+                    spreads.append(selected.name.value)
                 else:
-                    raise CycleException(fragments, self._extensions)
-        return
+                    self._collect_spreads(
+                        getattr(selected, "selection_set", None), spreads
+                    )
+        return spreads
+
+    def _validate_fragment(self, fragments, fragment, path, validated):
+        name = fragment.name.value
+        if name in validated:
+            return
+
+        path.append(name)
+        for spread_name in self._collect_spreads(fragment.selection_set, []):
+            if spread_name in path:
+                raise CycleException(fragments, self._extensions)
+
+            spreaded = find_nodes_by_name(fragments, spread_name)
+            if not spreaded:
+                continue  # Handled by another validator
+
+            self._validate_fragment(fragments, spreaded[0], path, validated)
+        path.pop()
+        validated.add(name)
 
     def validate(self, fragments, **_):
+        validated = set()
         for fragment in fragments:
             try:
-                self._validate_fragment(fragments, fragment, [])
+                self._validate_fragment(fragments, fragment, [], validated)
             except CycleException as e:
                 return e.tartiflette_errors
 
